@@ -118,4 +118,15 @@ theorem slice_off_whole_rows (truth : Term → Bool) (rowsNone colsNone : Bool) 
 
 example : headIdx 5 3 = [0, 1, 2] ∧ tailIdx 5 3 = [2, 3, 4] ∧ tailIdx 2 7 = [0, 1] := by decide
 
+/-- signatures: `filter(rows=None, **colname_value_pairs)` takes column names as keyword names — no other named parameter
+    may stand in their way; `slice` / `slice_off` take positions by keyword. -/
+theorem row_subsetting_signatures :
+    DataFrame_filter_signature = ["self", "rows=None", "**colname_value_pairs"] ∧
+    DataFrame_filter_out_signature = ["self", "rows=None", "**colname_value_pairs"] ∧
+    DataFrame_slice_signature = ["self", "rows=None", "cols=None"] ∧
+    DataFrame_slice_off_signature = ["self", "rows=None", "cols=None"] ∧
+    DataFrame_drop_na_signature = ["self", "*colnames"] ∧ DataFrame_unique_signature = ["self", "*colnames"] ∧
+    DataFrame_head_signature = ["self", "n=None"] ∧ DataFrame_tail_signature = ["self", "n=None"] :=
+  ⟨rfl, rfl, rfl, rfl, rfl, rfl, rfl, rfl⟩
+
 end DI.Tie.C02
